@@ -879,6 +879,11 @@ std::vector<double> Minimization::minimize(std::vector<double>& starting_point, 
 
 std::vector<double> Minimization::minimize(std::vector<double>& starting_point, std::vector<double>& deltas, std::function<double(std::vector<double>)> func)
 {
+	if(starting_point.empty() || deltas.size() != starting_point.size())
+	{
+		std::cerr << "Error in libphysica::Minimization::minimize(): The starting point is empty or the number of displacements (" << deltas.size() << ") differs from its dimension (" << starting_point.size() << ")." << std::endl;
+		std::exit(EXIT_FAILURE);
+	}
 	int ndim = starting_point.size();
 	std::vector<std::vector<double>> pp(ndim + 1, std::vector<double>(ndim, 0.0));
 	for(int i = 0; i < ndim + 1; i++)
@@ -895,8 +900,17 @@ std::vector<double> Minimization::minimize(std::vector<std::vector<double>>& pp,
 {
 	const int NMAX	  = 5000;
 	const double TINY = 1.0e-10;
-	mpts			  = pp.size();		// rows
-	ndim			  = pp[0].size();	// columns
+	// The simplex of an n-dimensional problem (n >= 1) has n + 1 vertices with n coordinates each.
+	bool valid_simplex = pp.size() >= 2 && pp.size() == pp[0].size() + 1;
+	for(unsigned int i = 1; valid_simplex && i < pp.size(); i++)
+		valid_simplex = (pp[i].size() == pp[0].size());
+	if(!valid_simplex)
+	{
+		std::cerr << "Error in libphysica::Minimization::minimize(): The initial simplex does not consist of n+1 vertices with n >= 1 coordinates each." << std::endl;
+		std::exit(EXIT_FAILURE);
+	}
+	mpts = pp.size();		// rows
+	ndim = pp[0].size();	// columns
 	std::vector<double> psum(ndim), pmin(ndim), x(ndim);
 	current_simplex = pp;
 	y.resize(mpts);
